@@ -125,14 +125,73 @@ Proof.
     + exfalso. clear - H. induction data as [|x data IHd]; simpl in H; [discriminate|apply IHd; exact H].
 Qed.
 
+(* the duplicate check of NewFactory decides NoDup *)
+Lemma existsb_bytes_eqb_In x l : existsb (bytes_eqb x) l = true <-> In x l.
+Proof.
+  rewrite existsb_exists. split.
+  - intros [y [Hy He]]. apply bytes_eqb_spec in He. subst. exact Hy.
+  - intro H. exists x. split; [exact H|apply bytes_eqb_refl].
+Qed.
+
+Lemma nodup_bytes_spec l : nodup_bytes l = true <-> NoDup l.
+Proof.
+  induction l as [|x l IH]; simpl.
+  - split; [constructor|reflexivity].
+  - rewrite andb_true_iff, negb_true_iff, IH. split.
+    + intros [Hx Hn]. constructor; [|exact Hn]. intro Hin. apply existsb_bytes_eqb_In in Hin. congruence.
+    + intro H. inversion H as [|? ? Hx Hn]; subst. split; [|exact Hn].
+      destruct (existsb (bytes_eqb x) l) eqn:E; [|reflexivity]. apply existsb_bytes_eqb_In in E. tauto.
+Qed.
+
+Lemma nodup_bytes_false l : nodup_bytes l = false <-> ~ NoDup l.
+Proof.
+  rewrite <- nodup_bytes_spec. destruct (nodup_bytes l); split; intro H; try reflexivity; try discriminate.
+  - exfalso. apply H. reflexivity.
+Qed.
+
+(* the value table of an enum column lists no value twice: what NewFactory asks of a declaration, and what every
+   column the factory returns has (Proofs/EnumOrderProofs.v enum_new_nodup) *)
+Definition enum_table_nodup (c : coldata) : bool :=
+  match c with ECol _ vs _ => nodup_bytes vs | _ => true end.
+Definition enum_tables_nodup (f : frame) : bool := forallb (fun nc => enum_table_nodup (snd nc)) (cols f).
+
 Lemma enum_new_unfold data values :
   enum_new data values =
   if (N.to_nat c_maxCardinality <? length values) then Fail
+  else if negb (nodup_bytes values) then Fail
   else let strict := negb (Nat.eqb (length values) 0) in
        do r <- ofold (enum_step strict) data (values, []); Ok (ECol (snd r) (fst r) strict).
 Proof.
   unfold enum_new. destruct (N.to_nat c_maxCardinality <? length values); [reflexivity|].
-  reflexivity.
+  destruct (nodup_bytes values); reflexivity.
+Qed.
+
+(* C17: a declaration that lists a value twice is rejected by the factory, whatever the data *)
+Theorem enum_new_duplicate_rejected data values : ~ NoDup values -> enum_new data values = Fail.
+Proof.
+  intro H. apply nodup_bytes_false in H. rewrite enum_new_unfold, H.
+  destruct (N.to_nat c_maxCardinality <? length values); reflexivity.
+Qed.
+
+Theorem enum_new_const_duplicate_rejected v n values : ~ NoDup values -> enum_new_const v n values = Fail.
+Proof.
+  intro H. apply nodup_bytes_false in H. unfold enum_new_const. rewrite H.
+  destruct (N.to_nat c_maxCardinality <? length values); reflexivity.
+Qed.
+
+(* ... hence a successful construction proves the declaration free of repetitions *)
+Theorem enum_new_ok_nodup data values c : enum_new data values = Ok c -> NoDup values.
+Proof.
+  intro H. apply nodup_bytes_spec. rewrite enum_new_unfold in H.
+  destruct (N.to_nat c_maxCardinality <? length values); [discriminate|].
+  destruct (nodup_bytes values); [reflexivity|discriminate].
+Qed.
+
+Theorem enum_new_const_ok_nodup v n values c : enum_new_const v n values = Ok c -> NoDup values.
+Proof.
+  intro H. apply nodup_bytes_spec. unfold enum_new_const in H.
+  destruct (N.to_nat c_maxCardinality <? length values); [discriminate|].
+  destruct (nodup_bytes values); [reflexivity|discriminate].
 Qed.
 
 (* C17 decode: whatever New accepted is read back exactly: every string as itself, null as null *)
@@ -146,7 +205,8 @@ Proof.
   rewrite enum_new_unfold.
   destruct (N.to_nat c_maxCardinality <? length values) eqn:Ec; [discriminate|].
   apply Nat.ltb_ge in Ec. change (N.to_nat c_maxCardinality) with 255 in Ec.
-  cbv zeta. intro H.
+  destruct (nodup_bytes values) eqn:End; [|discriminate].
+  cbv zeta. cbn [negb]. intro H.
   destruct (ofold (enum_step (negb (length values =? 0))) data (values, [])) as [[vs acc]| |] eqn:Ef; try discriminate.
   simpl in H. inversion H; subst. clear H.
   assert (Hinv0 : enum_inv [] (values, [])) by (split; [exact Ec|reflexivity]).
